@@ -1050,6 +1050,7 @@ def list_method(ex, st, fi, o, name, args, kw, line):
             hook(ex, st, o, args[0], line)
         o.segs.append(Single(args[0]))
         st.mut += 1
+        st.writes.append((o.lid, '$list'))
         yield st, None
     elif name == 'extend':
         v = args[0]
@@ -1057,15 +1058,18 @@ def list_method(ex, st, fi, o, name, args, kw, line):
             v = list_reversed(ex, st, v[1], line)
         ex.list_extend(o, v, st, line)
         st.mut += 1
+        st.writes.append((o.lid, '$list'))
         yield st, None
     elif name == 'insert':
         if args[0] != 0:
             raise Unsupported('insert at %r' % (args[0],))
         o.segs.insert(0, Single(args[1]))
         st.mut += 1
+        st.writes.append((o.lid, '$list'))
         yield st, None
     elif name == 'pop':
         st.mut += 1
+        st.writes.append((o.lid, '$list'))
         if not args:
             yield st, ex.list_pop_last(o, st, line)
         elif args[0] == 0:
